@@ -24,7 +24,7 @@ from typing import Any
 from sim import corpus, histsim, kit, project, runner
 
 PROP = "C07"
-FAMILY = {"model": 2000}  # finite scenario family (members are independent of VERIF_SEED); corpus family = cases x 2
+FAMILY = {"model": 1000}  # finite scenario family (members are independent of VERIF_SEED); corpus family = cases x 2
 SEQ_FLAGS = ["--native-parser"]
 
 
@@ -410,8 +410,8 @@ def run(tier: str) -> int:
     bad = [d for d in det if not d["same"]]
     if bad:
         raise kit.HarnessError(f"determinism self-test failed: {bad[:3]}")
-    n_corpus = 60 if tier == "quick" else len(par_cases()) * 2
-    items = [(k, tier) for k in kit.sample_indices(PROP, "model", FAMILY["model"], n)] + [(500000 + k, tier) for k in kit.sample_indices(PROP, "corpus", len(par_cases()) * 2, n_corpus)]
+    n_corpus = 60 if tier == "quick" else len(par_cases())
+    items = [(k, tier) for k in kit.sample_indices(PROP, "model", FAMILY["model"], n)] + [(500000 + k, tier) for k in kit.sample_indices(PROP, "corpus", len(par_cases()), n_corpus)]
     results, skipped = kit.run_pool(task, items, budget_s=900 if tier == "quick" else 3 * 3600)
     results.sort(key=lambda r: r["k"])
     by_class: dict[str, list[dict[str, Any]]] = {}
